@@ -34,6 +34,20 @@ func (x *exec) forkAndGap() bool {
 	return fork && gap
 }
 
+// treeClass: coarse shape of the tree a query was asked on (nodes, forking nodes, roots with gap slots).
+func (x *exec) treeClass() string {
+	forks, gapRoots := 0, map[fcmodel.Root]bool{}
+	for _, r := range x.m.Refs() {
+		if len(x.m.FCChildren(r)) >= 2 {
+			forks++
+		}
+		if !x.m.Nodes[r].IsBlock() {
+			gapRoots[r.Root] = true
+		}
+	}
+	return "n" + bucket(len(x.m.Nodes)/4) + "x4-f" + bucket(forks) + "-g" + bucket(len(gapRoots))
+}
+
 // query accounting: class histogram + non-triviality key
 func (x *exec) q(kind, class string, nontrivial bool) {
 	if x.inSweep {
@@ -48,7 +62,7 @@ func (x *exec) q(kind, class string, nontrivial bool) {
 	if nontrivial {
 		x.tag("q-nontrivial:" + kind)
 		if x.o.Prop == "C11" && x.forkAndGap() {
-			x.res.Keys = append(x.res.Keys, "C11|"+kind+"|"+class+"|"+when)
+			x.res.Keys = append(x.res.Keys, "C11|"+kind+"|"+class+"|"+when+"|"+x.treeClass())
 		}
 	}
 }
